@@ -1,6 +1,244 @@
-/- stub: property C02 has no model driver yet -/
+import ActixModel.Util
+import ActixModel.Model.H1Encode
+import ActixModel.Model.Disp
+import ActixModel.Model.DispPoll
+/-
+Line-protocol driver for C02 (and, through `Drv/C03.lean`, C03): one case = one scripted HTTP/1
+connection (grammar in `harness/src/props/c02.rs`); output = canonical wire bytes, dispatched
+request ids, expect calls, what each handler read of its request body, the connection result and
+the number of `poll_shutdown` calls — computed by the scheduler `Model/DispPoll.lean`.
+-/
 namespace ActixModel.Drv.C02
+open ActixModel.Util ActixModel.H1Encode ActixModel.Disp ActixModel.DispPoll
 
-def run (_line : String) : String := "unimplemented"
+/-! ## canonical wire (same function as `canon_wire` in the harness) -/
+
+def isPrefixOf : Bytes → Bytes → Bool
+  | [], _ => true
+  | _ :: _, [] => false
+  | a :: as, b :: bs => a == b && isPrefixOf as bs
+
+/-- split at the first occurrence of `needle`: (before, from the needle on) -/
+def splitAtSub (needle : Bytes) : Bytes → Option (Bytes × Bytes)
+  | [] => if needle.isEmpty then some ([], []) else none
+  | b :: rest =>
+    if isPrefixOf needle (b :: rest) then some ([], b :: rest)
+    else match splitAtSub needle rest with
+      | some (a, r) => some (b :: a, r)
+      | none => none
+
+def splitLinesAux : Nat → Bytes → List Bytes
+  | 0, bs => [bs]
+  | fuel + 1, bs =>
+    match splitAtSub crlf bs with
+    | none => [bs]
+    | some (l, rest) => l :: splitLinesAux fuel (rest.drop 2)
+
+def bytesLe : Bytes → Bytes → Bool
+  | [], _ => true
+  | _ :: _, [] => false
+  | a :: as, b :: bs => if a < b then true else if b < a then false else bytesLe as bs
+
+def insertSorted (x : Bytes) : List Bytes → List Bytes
+  | [] => [x]
+  | y :: ys => if bytesLe x y then x :: y :: ys else y :: insertSorted x ys
+
+def sortLines (ls : List Bytes) : List Bytes := ls.foldr insertSorted []
+
+def canonAux : Nat → Bytes → Bytes → Bytes × Nat
+  | 0, w, acc => (acc ++ w, 0)
+  | fuel + 1, w, acc =>
+    match splitAtSub (str "HTTP/1.") w with
+    | none => (acc ++ w, 0)
+    | some (pre, fromHead) =>
+      match splitAtSub (crlf ++ crlf) fromHead with
+      | none => (acc ++ pre, fromHead.length)
+      | some (head, rest) =>
+        match splitLinesAux head.length head with
+        | [] => (acc ++ w, 0)
+        | first :: hs =>
+          let hs' := sortLines (hs.filter fun l => !isPrefixOf (str "date: ") l)
+          canonAux fuel (rest.drop 4) (acc ++ pre ++ first ++ crlf ++ joinLines hs' ++ crlf)
+
+def canonWire (w : Bytes) : Bytes × Nat := canonAux (w.length + 1) w []
+
+/-! ## parsing the case line -/
+
+def natOf (s : String) : Nat := s.toNat?.getD 0
+
+def listOf (ws : List String) (key : String) (sep : String) : List String :=
+  match kv ws key with
+  | none => []
+  | some v => if v == "-" || v == "" then [] else v.splitOn sep
+
+def bodyByte (rid k : Nat) : UInt8 := UInt8.ofNat (97 + (rid * 7 + k * 3) % 26)
+
+def genBytes (rid pos n : Nat) : Bytes := (List.range n).map fun i => bodyByte rid (pos + i)
+
+/-- script text → tokens; `keepEmpty = false` models `BodyStream`/`SizedStream` skipping empty chunks -/
+def parseScript (rid : Nat) (keepEmpty : Bool) (s : String) : List BodyTok :=
+  let toks := if s == "-" || s == "" then [] else s.splitOn "."
+  let rec go : List String → Nat → List BodyTok
+    | [], _ => []
+    | t :: ts, pos =>
+      if t == "P" then .pending :: go ts pos
+      else if t == "X" then .err :: go ts pos
+      else
+        let n := natOf t
+        if n == 0 && !keepEmpty then go ts pos
+        else .bytes (genBytes rid pos n) :: go ts (pos + n)
+  go toks 0
+
+structure ReqSpec where
+  facts : ReqFacts
+  bad : Bool
+  chunkSizes : List Nat
+  espec : ESpec
+  deriving Inhabited
+
+def parseReq (rid : Nat) (s : String) : ReqSpec :=
+  let dflt : ReqFacts := { rid, isHead := false, version := .h11, conn := .keepAlive, expect := false, body := .none }
+  if s == "X" then { facts := dflt, bad := true, chunkSizes := [], espec := .ok 0 }
+  else
+    match s.splitOn ":" with
+    | [m, v, c, b, x] =>
+      let version := if v == "0" then Version.h10 else Version.h11
+      let conn := if c == "c" then ConnType.close else if c == "k" then .keepAlive else if c == "u" then .upgrade
+                  else if version == .h10 then .close else .keepAlive
+      let (body, sizes) : ReqBody × List Nat :=
+        if b == "n" then (.none, [])
+        else if b.startsWith "l" then
+          let n := natOf (b.drop 1).toString
+          (if n == 0 then .none else .length n, [])
+        else
+          let t := (b.drop 1).toString
+          (.chunked, if t == "" then [] else (t.splitOn ".").map natOf)
+      let espec : ESpec := if x == "f" then .fail else if x.startsWith "w" then .ok (natOf (x.drop 1).toString) else .ok 0
+      -- heads the real decoder rejects: TE on HTTP/1.0, HTTP/1.0 POST without Content-Length
+      let bad := (version == .h10 && body == .chunked) || (version == .h10 && m == "P" && !b.startsWith "l")
+      { facts := { rid, isHead := m == "H", version, conn, expect := x != "-", body }, bad, chunkSizes := sizes, espec }
+    | _ => { facts := dflt, bad := true, chunkSizes := [], espec := .ok 0 }
+
+def takeDigits (cs : List Char) : List Char × List Char := (cs.takeWhile Char.isDigit, cs.dropWhile Char.isDigit)
+
+/-- user header letters: `L<n>` content-length, `T` transfer-encoding, `C` connection, `K` no_chunking -/
+def parseHdrs : Nat → List Char → List (Bytes × Bytes) × Bool
+  | 0, _ => ([], false)
+  | fuel + 1, cs =>
+    match cs with
+    | [] => ([], false)
+    | 'L' :: rest =>
+      let (d, rest') := takeDigits rest
+      let (hs, k) := parseHdrs fuel rest'
+      ((str "content-length", str (String.ofList d)) :: hs, k)
+    | 'T' :: rest => let (hs, k) := parseHdrs fuel rest; ((str "transfer-encoding", str "chunked") :: hs, k)
+    | 'C' :: rest => let (hs, k) := parseHdrs fuel rest; ((str "connection", str "foo") :: hs, k)
+    | 'K' :: rest => let (hs, _) := parseHdrs fuel rest; (hs, true)
+    | _ :: rest => parseHdrs fuel rest
+
+def parseHandler (rid : Nat) (s : String) : HSpec :=
+  match s.splitOn ":" with
+  | [p, a, stt, c, hd, b] =>
+    let pend := natOf (p.drop 1).toString
+    let act : PayAct := if a == "i" then .ignore else if a == "d" then .dropEarly else if a == "a" then .readAll
+      else if a == "k" then .hold else .readN (natOf (a.drop 1).toString)
+    if stt.startsWith "E" then
+      { pend, act, isErr := true,
+        res := { status := natOf (stt.drop 1).toString, connType := none, chunked := true, headers := [(str "x-rid", str "e")] },
+        size := .sized 3, script := [.bytes (str "err")], holdEff := false }
+    else
+      let conn : Option ConnType := if c == "c" then some .close else if c == "k" then some .keepAlive
+        else if c == "u" then some .upgrade else none
+      let (uh, noChunk) := if hd == "-" then ([], false) else parseHdrs (hd.length + 1) hd.toList
+      let headers := (str "x-rid", str (toString rid)) :: uh
+      let (size, script, streamKind) : BodySize × List BodyTok × Bool :=
+        if b == "e" then (.sized 0, [], false)
+        else if b == "N" then (.none, [], false)
+        else if b.startsWith "b" then
+          let n := natOf (b.drop 1).toString
+          (.sized n, if n == 0 then [] else [.bytes (genBytes rid 0 n)], false)
+        else if b.startsWith "z" then
+          match ((b.drop 1).toString).splitOn "/" with
+          | [n, sc] => (.sized (natOf n), parseScript rid false sc, true)
+          | _ => (.sized 0, [], false)
+        else if b.startsWith "s/" then (.stream, parseScript rid false (b.drop 2).toString, true)
+        else if b.startsWith "m" then
+          match ((b.drop 1).toString).splitOn "/" with
+          | [n, sc] =>
+            if n == "N" then (.none, [], false)
+            else if n == "S" then (.stream, parseScript rid true sc, true)
+            else (.sized (natOf n), parseScript rid true sc, true)
+          | _ => (.sized 0, [], false)
+        else (.sized 0, [], false)
+      { pend, act, isErr := false,
+        res := { status := natOf stt, connType := conn, chunked := !noChunk, headers },
+        size, script, holdEff := act == .hold && streamKind }
+  | _ => defaultSpec
+
+def splitIdx (u : String) : Nat × String :=
+  let d := u.toList.takeWhile Char.isDigit
+  (natOf (String.ofList d), (u.drop d.length).toString)
+
+def parseUnit (reqs : List ReqSpec) (u : String) : Option RUnit :=
+  let (i, rest) := splitIdx u
+  match reqs[i]? with
+  | none => none
+  | some r =>
+    if rest == "h" then some (if r.bad then .bad else .head r.facts)
+    else if rest == "ha" then some (if r.bad then .badA else .headA r.facts)
+    else if rest == "hb" then some (if r.bad then .badB else .headB r.facts)
+    else if rest == "z" then some .last
+    else if rest.startsWith "b" then some (.body (natOf (rest.drop 1).toString))
+    else if rest.startsWith "c" then some (.chunk ((r.chunkSizes[natOf (rest.drop 1).toString]?).getD 0))
+    else none
+
+def parseReads (reqs : List ReqSpec) (segs : List String) : List ReadTok :=
+  segs.map fun s =>
+    if s == "P" then .pending else if s == "E" then .eof else if s == "R" then .reset
+    else .data ((s.splitOn "+").filterMap (parseUnit reqs))
+
+def parseWrites (ts : List String) : List WriteTok :=
+  ts.map fun t => if t == "P" then .pending else if t == "X" then .err else if t == "Z" then .zero else .accept (natOf t)
+
+def enumFrom {α : Type} : Nat → List α → List (Nat × α)
+  | _, [] => []
+  | i, x :: xs => (i, x) :: enumFrom (i + 1) xs
+
+def showNats (ns : List Nat) : String := if ns.isEmpty then "-" else joinWith "," (ns.map toString)
+
+def hexOrDash (bs : Bytes) : String := if bs.isEmpty then "-" else hexOfBytes bs
+
+def runWorld (line : String) : Option (Σ cfg : Cfg, World cfg) :=
+  let ws := words line
+  match kv ws "ka", kv ws "dt", kv ws "hc", kv ws "wb" with
+  | some ka, some dt, some hc, some wb =>
+    let cfg : Cfg := { kaEnabled := ka == "1", kaTimeout := ka == "1", reqTimeout := true, discTimeout := dt == "1",
+                       allowHalfClosed := hc == "1", writeBufSize := natOf wb }
+    let reqs := (enumFrom 0 (listOf ws "q" ";")).map fun (i, s) => parseReq i s
+    let hs := (enumFrom 0 (listOf ws "h" ";")).map fun (i, s) => parseHandler i s
+    let w : World cfg :=
+      { tr := Trace.start cfg, reads := parseReads reqs (listOf ws "r" ","), writes := parseWrites (listOf ws "w" ","),
+        hspecs := hs, especs := reqs.map (·.espec) }
+    some ⟨cfg, simulate w⟩
+  | _, _, _, _ => none
+
+def showWorld {cfg : Cfg} (w : World cfg) : String :=
+  let (cw, t) := canonWire w.wire
+  let reads := if w.rlog.isEmpty then "-" else
+    joinWith "," (w.rlog.map fun (r, n, e) => toString r ++ ":" ++ toString n ++ ":" ++ e)
+  "W=" ++ hexOrDash cw ++ " T=" ++ toString t ++ " C=" ++ showNats w.calls ++ " X=" ++ showNats w.xcalls ++
+    " R=" ++ reads ++ " D=" ++ w.result.getD "?" ++ " S=" ++ toString w.shutdownCalls ++
+    (if w.stuck.isEmpty then "" else " STUCK=" ++ joinWith "," w.stuck)
+
+/-- debugging aid: `trace <case>` prints the accepted event list (oldest first) before the result -/
+def run (line : String) : String :=
+  if line.startsWith "trace " then
+    match runWorld (line.drop 6).toString with
+    | some ⟨_, w⟩ => joinWith " " (w.tr.events.reverse.map evName) ++ " => " ++ showWorld w
+    | none => "bad-case"
+  else
+  match runWorld line with
+  | some ⟨_, w⟩ => showWorld w
+  | none => "bad-case"
 
 end ActixModel.Drv.C02
